@@ -94,6 +94,22 @@ def subst_inits(e, inits, depth=0):
     return {k: (subst_inits(v, inits, depth) if isinstance(v, (dict, list)) else v) for k, v in e.items()}
 
 
+def check_path_signature(ctx, fx, rule):
+    """path_signature_table is a second copy of the PATH percent-encode set: parse_prepared_path / consume_prepared_path copy a
+    path verbatim when no byte of it is flagged, without consulting the bitmap.  Bit 1 must be set exactly for the bytes of
+    the Standard's path percent-encode set (which includes every byte outside 0x21..0x7E), 8 for '%', 4 for '.', 2 for '\\'."""
+    from lib import tables as T
+    from spec import whatwg as W
+    t = fx.table("ada::checkers::path_signature_table")
+    v = T.arr(t, 256)
+    for b in range(256):
+        want = 1 if b in W.PATH else (8 if b == 0x25 else 4 if b == 0x2E else 2 if b == 0x5C else 0)
+        ctx.check(rule, "path_signature_table[0x%02X]" % b, v[b] == want, "= %d" % want,
+                  "byte 0x%02X: signature %d, expected %d (1 = in the path percent-encode set, 8 = '%%', 4 = '.', 2 = '\\'): a path "
+                  "whose only special byte is this one is copied verbatim instead of being percent-encoded (or the reverse)"
+                  % (b, v[b], want), where=t["loc"])
+
+
 def term_cond(b):
     """The condition actually evaluated at the end of block b (rightmost operand of &&/||)."""
     t = b["term"]
